@@ -180,6 +180,34 @@ def main():
             run.violation(f"pipeline:quiet-site:{fam}", f"{fam}: {len(wins)} windows of one recording with amplitudes ~1e-10: rows {bad_} are not the curves of their windows "
                           f"processed alone ({len(rows)} rows)", dict(kind="pipeline-quiet", family=fam))
         run.case(("quiet", fam))
+    # ---- "sampled at exactly the requested centre frequencies": also when they are requested in descending or arbitrary order - the
+    #      frequency axis of the result is the caller's vector as given (the caller's own array is not reordered either), and every
+    #      column belongs to its frequency
+    base_fcs = np.geomspace(2.0, FCMAX[0], 6)
+    three = [recs[(1, 1)], recs[(2, 1)], recs[(3, 1)]]
+    for fam in families + ["diffuse_field"]:
+        outs = {}
+        for oname, idx in (("ascending", np.arange(6)), ("descending", np.arange(6)[::-1]), ("shuffled", np.array([3, 0, 5, 1, 4, 2]))):
+            st = settings(fam, "frequency_domain_resampling", 0)
+            asked = base_fcs[idx].copy()
+            mine = asked.copy()
+            st.smoothing["center_frequencies_in_hz"] = asked
+            with warnings.catch_warnings():
+                warnings.simplefilter("ignore")
+                out = h.process(three, st)
+            freq_o = np.asarray(out.frequency if not hasattr(out, "hvsrs") else out.hvsrs[0].frequency, dtype=float)
+            rows_o = np.array(rows_of(out), dtype=float)          # (..., centre frequency)
+            outs[oname] = (idx, rows_o)
+            if not (np.array_equal(freq_o, mine) and np.array_equal(np.asarray(asked), mine)):
+                run.violation(f"pipeline:centre-frequency-order:{fam}", f"{fam}: centre frequencies requested in {oname} order {mine.tolist()}: the result is on {freq_o.tolist()} "
+                              f"(the caller's array now reads {np.asarray(asked).tolist()})", dict(kind="pipeline-fc-order", family=fam, order=oname))
+        ref_idx, ref_rows = outs["ascending"]
+        for oname in ("descending", "shuffled"):
+            idx, rows_o = outs[oname]
+            if rows_o.shape != ref_rows.shape or not np.allclose(rows_o, ref_rows[..., idx], rtol=1e-12, atol=0):
+                run.violation(f"pipeline:centre-frequency-order:{fam}", f"{fam}: the columns obtained for the {oname} request are not the columns of the same frequencies "
+                              f"obtained for the ascending request", dict(kind="pipeline-fc-order", family=fam, order=oname))
+        run.case(("fc-order", fam))
     return run.finish(
         rule="every arrangement of recordings over 3 time-step classes x 3 policies x 4 Nyquist classes of spec/Pipeline.tla (quick: all of "
              "length <= 3 and a seeded third of length 4), processed jointly under traditional / single-azimuth / RotDpp / azimuthal (and "
